@@ -73,6 +73,19 @@ class VBytes(V):
         return "VBytes(%s)" % self.t
 
 
+class VABytes(V):
+    """bytes in *array view*: (z3 Array Int->Int, length).  Used where elements are read under quantifiers
+    (maskers): indexing is a plain select, no sequence theory involved."""
+    kind = "abytes"
+
+    def __init__(self, arr, n):
+        self.arr = arr
+        self.n = z3.IntVal(n) if isinstance(n, int) else n
+
+    def __repr__(self):
+        return "VABytes(%s,%s)" % (self.arr, self.n)
+
+
 class VStr(V):
     kind = "str"
 
@@ -267,6 +280,8 @@ def same_atom(a, b):
         return a.tag == b.tag
     if isinstance(a, VPtr):
         return same_atom(a.base, b.base) and a.off.eq(b.off)
+    if isinstance(a, VABytes):
+        return a.arr.eq(b.arr) and a.n.eq(b.n)
     return False
 
 
@@ -325,6 +340,8 @@ def _fusable(a, b):
         return len(a.items) == len(b.items)
     if isinstance(a, VPtr):
         return same_atom(a.base, b.base)
+    if isinstance(a, VABytes):
+        return True
     return same_atom(a, b)
 
 
@@ -340,6 +357,14 @@ def _fuse(grp):
         if isinstance(rep, VSym):
             return VSym(rep.shape, t)
         return type(rep)(t)
+    if isinstance(rep, VABytes):
+        arr, n = grp[-1][1].arr, grp[-1][1].n
+        for g, a in reversed(grp[:-1]):
+            if not a.arr.eq(arr):
+                arr = z3.If(g, a.arr, arr)
+            if not a.n.eq(n):
+                n = z3.If(g, a.n, n)
+        return VABytes(arr, n)
     if isinstance(rep, VPtr):
         t = grp[-1][1].off
         for g, a in reversed(grp[:-1]):
